@@ -253,8 +253,8 @@ type harness struct {
 	r     *vh.Rng
 	rep   *vh.Report
 	drv   vh.Driver
-	lines []string        // pending driver lines
-	conts []func(string)  // continuation per line
+	lines []string       // pending driver lines
+	conts []func(string) // continuation per line
 	known map[string]vh.Finding
 }
 
@@ -943,9 +943,11 @@ func (h *harness) vectors() {
 			}
 			if !*nomodel {
 				h.ask(fmt.Sprintf("canon.specs %s 1 1 %s", hashName, wire), func(res string) {
-					h.rep.Count("vectors:spec-test")
 					if bytesOf(res) != vh.X(want) {
+						h.rep.Count("TEST Spec.RDFC10 reproduces the published W3C result: FAIL")
 						h.disagreement("vectors "+id, vh.X(want), res, "TEST: Spec.RDFC10 does not reproduce the published W3C result "+e.Result)
+					} else {
+						h.rep.Count("TEST Spec.RDFC10 reproduces the published W3C result: pass")
 					}
 				})
 				h.ask(fmt.Sprintf("canon.runs %s 1 %s", hashName, wire), func(res string) {
@@ -1015,13 +1017,14 @@ func (h *harness) shaTest(n int) {
 		s256 := sha256.Sum256(b)
 		s384 := sha512.Sum384(b)
 		w256, w384 := hex.EncodeToString(s256[:]), hex.EncodeToString(s384[:])
-		h.rep.Count("sha-test")
 		h.ask("canon.sha sha256 "+vh.X(b), func(res string) {
+			h.rep.Count("TEST Model.Sha2 = crypto/sha256|sha512 (random byte strings)")
 			if res != w256 {
 				h.disagreement("canon.sha sha256 "+vh.X(b), w256, res, "TEST: Model.Sha2.sha256 differs from crypto/sha256")
 			}
 		})
 		h.ask("canon.sha sha384 "+vh.X(b), func(res string) {
+			h.rep.Count("TEST Model.Sha2 = crypto/sha256|sha512 (random byte strings)")
 			if res != w384 {
 				h.disagreement("canon.sha sha384 "+vh.X(b), w384, res, "TEST: Model.Sha2.sha384 differs from crypto/sha512.New384")
 			}
